@@ -15,6 +15,12 @@ def stmt_text(k: str, i: int, rng: random.Random, fancy: bool) -> str:
     if k == "const":
         val = rng.choice([str(i), "0x%x" % i, "%d + 0" % i, "0b%s" % bin(i)[2:]]) if fancy else str(i)
         return "uint16" + sp() + "C%d" % i + osp() + "=" + osp() + val
+    if k == "kdef":         # the constant named K; its value is the (abstract) line it stands on
+        return "uint8" + sp() + "K" + osp() + "=" + osp() + str(i)
+    if k == "kuse":         # a constant whose initialiser reads K: value = 1000 * (line of the K it denotes) + own line
+        return "uint16" + sp() + "U%d" % i + osp() + "=" + osp() + rng.choice(["K * 1000 + %d" % i, "%d + 1000 * K" % i] if fancy else ["K * 1000 + %d" % i])
+    if k == "kprint":
+        return "@print" + sp() + "K * 1000 + %d" % i
     if k == "pad":
         return "void%d" % i
     if k == "union":
@@ -80,14 +86,15 @@ def render(lines, seed: int, variant: int) -> str:
 # ---- expected projection from the specification's `out` ---------------------------------------------------------
 def expected(out):
     if not out["ok"]:
-        return {"ok": False, "line": out["line"], "prints": [int(x) for x in out["prints"]]}
+        return {"ok": False, "line": out["line"], "prints": [int(x) for x in out["prints"]],
+                "refs": sorted((r["i"], r["ref"]) for r in out["refs"] if r["k"] == "kprint")}   # constants are not observable without a model
     parts = []
     for p in out["parts"]:
         parts.append({"union": p["union"], "mode": p["mode"], "doc": [int(x) for x in p["doc"]],
                       "fields": [(f["k"], f["i"], [int(x) for x in f["doc"]]) for f in p["fields"]],
                       "consts": [(c["i"], [int(x) for x in c["doc"]]) for c in p["consts"]]})
     return {"ok": True, "service": out["service"], "dep": out["dep"], "parts": parts,
-            "prints": [int(x) for x in out["prints"]]}
+            "prints": [int(x) for x in out["prints"]], "refs": sorted((r["i"], r["ref"]) for r in out["refs"])}
 
 def _doc_ids(doc: str):
     if doc == "":
@@ -104,12 +111,17 @@ def project(status, res, prints, file_path: str, to_abs=lambda x: x):
     """Projection of the real result to the abstract form (physical line numbers -> abstract line indices)."""
     import pydsdl
     pr = []
+    refs = []
     for (path, line, text) in prints:
         a = to_abs(line)
+        if text.strip().isdigit() and int(text) >= 1000 and int(text) % 1000 == a and path == file_path:   # a kprint line
+            refs.append((a, int(text) // 1000))
+            pr.append(a)
+            continue
         pr.append(a if (text.strip() == str(a) and path == file_path) else ("?", path, line, text))
     if status == "err":
         info = dsdlio.err_info(res)
-        return {"ok": False, "line": to_abs(info["line"]) if info["line"] else 0, "prints": pr, "ide": info["ide"], "path": info["path"],
+        return {"ok": False, "line": to_abs(info["line"]) if info["line"] else 0, "prints": pr, "refs": sorted(refs), "ide": info["ide"], "path": info["path"],
                 "cls": info["cls"], "text": info["text"]}
     if len(res) != 1:
         return {"ok": "?", "n": len(res)}
@@ -131,6 +143,11 @@ def project(status, res, prints, file_path: str, to_abs=lambda x: x):
         for c in cmp.constants:
             if c.name.startswith("C") and str(c.data_type) == "saturated uint16" and c.value.native_value == int(c.name[1:]):
                 consts.append((int(c.name[1:]), _doc_ids(c.doc)))
+            elif c.name == "K" and str(c.data_type) == "saturated uint8":
+                consts.append((int(c.value.native_value), _doc_ids(c.doc)))
+            elif c.name.startswith("U") and str(c.data_type) == "saturated uint16" and c.value.native_value % 1000 == int(c.name[1:]):
+                consts.append((int(c.name[1:]), _doc_ids(c.doc)))
+                refs.append((int(c.name[1:]), int(c.value.native_value) // 1000))
             else:
                 consts.append(("?", str(c), c.doc))
         mode = "extent" if delimited else "sealed"
@@ -139,7 +156,7 @@ def project(status, res, prints, file_path: str, to_abs=lambda x: x):
         parts.append({"union": isinstance(inner, pydsdl.UnionType), "mode": mode, "doc": _doc_ids(cmp.doc),
                       "fields": fields, "consts": consts})
     return {"ok": True, "service": isinstance(t, pydsdl.ServiceType), "dep": bool(t.deprecated), "parts": parts,
-            "prints": pr}
+            "prints": pr, "refs": sorted(refs)}
 
 def compare(exp, got, file_path: str):
     diff = []
@@ -154,8 +171,10 @@ def compare(exp, got, file_path: str):
             diff.append(("error path", got["path"], file_path))
         if got["prints"] != exp["prints"]:
             diff.append(("prints before the error", got["prints"], exp["prints"]))
+        elif got["refs"] != exp["refs"]:
+            diff.append(("constant denoted by an identifier (line, line of the definition it resolved to)", got["refs"], exp["refs"]))
         return diff
-    for key in ("service", "dep", "prints"):
+    for key in ("service", "dep", "prints", "refs"):
         if exp[key] != got[key]:
             diff.append((key, got[key], exp[key]))
     if len(exp["parts"]) != len(got["parts"]):
@@ -287,6 +306,7 @@ def run_case(lines, out, seed: int, variants, roundtrip: bool):
                         g2 = project(s2, r2, [], "")
                         g1 = dict(got)
                         g1["prints"] = g2["prints"] = []
+                        g1["refs"] = g2["refs"] = []       # the canonical rendering holds values, not identifiers
                         if not (r2[0] == res[0] and hash(r2[0]) == hash(res[0])) or g1 != g2:
                             bad.append({"variant": v, "text": text, "canonical": canon,
                                         "diff": [("re-read of the canonical rendering differs", g2, g1)]})
